@@ -12,11 +12,13 @@ env = dict(os.environ, GOFLAGS="-mod=mod", GOPROXY="off", GOSUMDB="off", GOTOOLC
 args = sys.argv[1:]
 prop = None
 tests = False
+record = False
 names = []
 while args:
     a = args.pop(0)
     if a == "--prop": prop = args.pop(0)
     elif a == "--tests": tests = True
+    elif a == "--record": record = True
     else: names.append(a)
 ok = True
 for meta_path in sorted(glob.glob(f"{V}/selftest/*.json")):
@@ -42,6 +44,10 @@ for meta_path in sorted(glob.glob(f"{V}/selftest/*.json")):
         r = subprocess.run([f"{V}/bin/goverif", "check", "--prop", meta["property"], "--repo", repo, "--out", tmp], capture_output=True, text=True, env=dict(os.environ))
         failed = set(re.findall(r"failed obligation: (\S+)", r.stdout))
         want = set(meta.get("must_fail", []))
+        if record and not want and failed and meta.get("kind", "must-fail") == "must-fail":
+            meta["must_fail"] = sorted(failed)[:4]
+            json.dump(meta, open(meta_path, "w"), indent=1)
+            want = set(meta["must_fail"])
         if meta.get("kind", "must-fail") == "must-pass":
             good = r.returncode == 0
             print(f"SELFTEST {name} [{meta['property']} must-pass]: {'ok' if good else 'FAILED: ' + ', '.join(sorted(failed))}")
